@@ -46,6 +46,7 @@ func init() {
 		"tl.wait.block":       exWaitBlock,
 		"go.tl.tagtable":      goTagTable,
 		"go.tl.reflectsum":    goReflectSum,
+		"go.tl.zerovec":       goZeroVec,
 		"tl.hw.accountid":     exHwAccountID,
 		"tl.hw.blockidext":    exHwBlockIDExt,
 		"tl.hw.accountid.dec": exHwAccountIDDec,
@@ -175,6 +176,20 @@ func goReflectSum(a []string) string {
 	if back.SumType != r.SumType || back.AdnlMessageQuery.QueryId != r.AdnlMessageQuery.QueryId || !bytes.Equal(back.AdnlMessageQuery.Query, r.AdnlMessageQuery.Query) ||
 		back.AdnlMessageAnswer.QueryId != r.AdnlMessageAnswer.QueryId || !bytes.Equal(back.AdnlMessageAnswer.Answer, r.AdnlMessageAnswer.Answer) {
 		return failf("reflectsum", "reflection decoder on %x gives another value (SumType %q)", b2, back.SumType)
+	}
+	return "ok"
+}
+
+// goZeroVec <count>: a vector whose items occupy zero bytes (a constructor without fields) is decodable from the four
+// bytes of its count alone; tl.decodeVector then performs `count` iterations (up to 2^32) for a 4-byte input. A decoder
+// with work bounded by its input answers at once.
+func goZeroVec(a []string) string {
+	n, _ := strconv.ParseUint(a[0], 10, 32)
+	var v struct{ Items []struct{} }
+	t0 := time.Now()
+	err := tl.Unmarshal(bytes.NewReader(binary.LittleEndian.AppendUint32(nil, uint32(n))), &v)
+	if d := time.Since(t0); d > time.Second {
+		return failf("unbounded-work", "tl.Unmarshal of a 4-byte input (vector of %d zero-size items) took %v (err=%v)", n, d.Round(time.Second), err)
 	}
 	return "ok"
 }
@@ -695,6 +710,8 @@ func genC10(g *h.G) {
 	g.Emit("prim.crc32", textHex("liteServer.query data:bytes = Object"))
 	g.Emit("go.regen.liteclient")
 	g.Emit("go.tl.tagtable")
+	g.Emit("go.tl.zerovec", "1000")
+	g.Emit("go.tl.zerovec", "30000000")
 	for i := 0; i < g.Scale(12, 200); i++ {
 		g.Emit("go.tl.reflectsum", fmt.Sprint(i%2), h.Hex(g.Bytes(32)), hexDash(g.Bytes([]int{0, 1, 3, 4, 253, 254, 300}[i%7])))
 	}
